@@ -701,7 +701,14 @@ impl<'r> Lowerer<'r> {
             .map(|a| {
                 let ty = self.type_info.type_of(a);
                 let ty = self.type_info.convert(&ty);
-                (self.expr(a), ty)
+                // The value of an expression can be lazy (a call that has
+                // not been emitted yet, a read of a variable), so each
+                // argument is stored before the next one is evaluated.
+                // Otherwise the side effects of a later argument would
+                // happen before those of an earlier one.
+                let val = self.expr(a);
+                let var = self.assign_to_var(val, ty);
+                (Value::Move(var), ty)
             })
             .collect();
         self.make_enum(ty, variant, &arguments)
